@@ -1,6 +1,6 @@
 /-
 Driver operations of the JSON half of C11.
-  (json.rt (C…))        -> ok (C'…) | err:unregistered
+  (json.rt (C…))        -> ok (C'…) | err:unregistered | err:tooLong
   (json.names)          -> the type-name table the model assumes: `0:Organization,2:Volumes,…`
   (json.typeof x<name>) -> caveatTypeFromString(name) as a decimal number (names, aliases, decimal strings, junk)
   (json.nameof <n>)     -> x<caveatTypeToString(n)>
@@ -13,6 +13,7 @@ open Macaroon
 
 def jsonErrName : JsonErr → String
   | .unregistered => "unregistered"
+  | .tooLong => "tooLong"
 
 def evalOpJson : Sx → Option String
   | .list [.atom "json.rt", .list cs] => do
